@@ -227,7 +227,7 @@ def contracts(tier):
                    "!(__CPROVER_loop_entry(%s) < %s && %s <= %s)" % (calls, stop_at, stop_at, calls)]
             lp = Loop(assigns=[bi, calls], invariants=inv, decreases="(unsigned long)%s - (unsigned long)%s" % (ei, bi))
             hit = "(OLD(%s) < %s && %s <= OLD(%s) + (unsigned long)%s)" % (calls, stop_at, stop_at, calls, N)
-            add(f, gname + "::visit_children", [OBJ(p, rec)] + vw.wf() + [OBJ(vv, vrec), OBJ(cc, crec_), ASSUME("%s <= (1UL << 32)" % calls)],
+            add(f, gname + "::visit_children", [OBJ(p, rec)] + vw.wf() + [OBJ(vv, vrec), OBJ(cc, crec_), ASSUME("%s <= (1UL << 32)" % calls), ASSUME("sbv_n < %d || (unsigned long)%s <= (1UL << 62)" % (HDR, N))],
                 [("header-in-bounds-or-reported", "%d <= sbv_n" % HDR), ("stops-at-first-true-callback", "RET == (_Bool)%s" % hit),
                  ("each-entry-visited-once-until-stop", "%s == (%s ? %s : OLD(%s) + (unsigned long)%s)" % (calls, hit, stop_at, calls, N))],
                 assigns=[calls], props={"C19", "C12"}, loops={0: lp})
